@@ -47,6 +47,12 @@ NAMES = ['Subject', 'X-A', 'To']
 NAME_MULTISET = ['Subject', 'X-A', 'X-A', 'To']
 KINDS = ['plain', 'folded', '8bit', 'long', 'long8']
 EOLS = {'CRLF': b'\r\n', 'LF': b'\n'}
+# family CT: a Content-Type field whose value makes a MIME parser look into the body (the envelope must not)
+CT_KINDS = {'ct-rfc822': b'message/rfc822', 'ct-dsn': b'message/delivery-status', 'ct-mixed': b'multipart/mixed; boundary="b"',
+            'ct-digest': b'multipart/digest; boundary=b', 'ct-text8': b'text/plain; charset=utf-8', 'ct-odd': b'x-unknown/x-thing'}
+CT_BODIES = [b'', b'Subject: inner\r\n\r\ninner body\r\n', b'Reporting-MTA: dns; x\r\n\r\nFinal-Recipient: rfc822; a@b\r\n',
+             b'--b\r\nContent-Type: text/plain\r\n\r\npart \xe9\r\n--b--\r\n', b'preamble\n--b\n\nno final boundary', b'\x00\xff\r.\r\n',
+             b'\r\n\r\nFrom: x\r\n']
 # "Name: value" is what the design enumerates; "Name:value" is just as well-formed (RFC 5322 3.6.8)
 # and satisfies every condition of the quantifier, so it is enumerated too.
 SEPS = {'space': b': ', 'nospace': b':'}
@@ -253,6 +259,8 @@ def field_lines(name, kind, i, sep):
     elif kind == 'long8':
         parts = [_pad_words(len(n) + len(sep), i, b'\xe9b', MAX_LINE),
                  b' ' + _pad_words(1, i, b'c\xe9', MAX_LINE)]
+    elif kind in CT_KINDS:
+        parts = [CT_KINDS[kind]]
     else:
         raise ValueError(kind)
     lines = [n + sep + parts[0]] + parts[1:]
@@ -604,8 +612,13 @@ def check_stores(names, kinds, eol, sep, block, expected, body, res):
     from worlds.queue_world import UUID_MODULES
     data = block + EOLS[eol] + body
     env0 = _new_env()
-    env0.parse(data)
-    want = env0.flatten()
+    rep0 = {'fam': 'stores', 'names': list(names), 'kinds': list(kinds), 'eol': eol, 'sep': sep, 'body': b2s(body)}
+    try:
+        env0.parse(data)
+        want = env0.flatten()
+    except Exception as e:
+        return [({'claim': 'pickle', 'stage': 'parse', 'kind': 'exception:' + type(e).__name__, 'body_class': body_class(body)},
+                 'parse/flatten of %r raised %r' % (data, e), rep0)]
     out = []
     rep = {'fam': 'stores', 'names': list(names), 'kinds': list(kinds), 'eol': eol, 'sep': sep, 'body': b2s(body)}
     for backend in ('disk', 'redis', 'cloud', 'shelf'):
@@ -688,7 +701,7 @@ def check_relay_7bit(text, encname, pre8, post8, res, utf8=False):
 
 def configs(tier, seed):
     fams = [[{'fam': f, 'part': k, 'of': n} for k in range(n)]
-            for f, n in (('S', NS), ('B', NB), ('N', NN), ('W', NW), ('WL', NWL), ('E', NE), ('ST', 8), ('R7', 1))]
+            for f, n in (('S', NS), ('B', NB), ('N', NN), ('W', NW), ('WL', NWL), ('E', NE), ('ST', 8), ('R7', 1), ('CT', 2))]
     # interleaved so that the first samples the runner keeps come from every family
     return [c for row in itertools.zip_longest(*fams) for c in row if c is not None]
 
@@ -741,6 +754,23 @@ def run_config(cfg, tier, seed):
                 for sig, text, rep in check_stores(names, kinds, eol, sep, block, expected, body, res):
                     res.violation(sig, text, rep)
         res.sample({'family': 'ST', 'stores': ['disk (short aio completions)', 'redis', 'cloud', 'shelve'], 'bodies': len(STORE_BODIES)})
+    elif fam == 'CT':
+        vi = 0
+        for names in (('Content-Type',), ('Subject', 'Content-Type'), ('Content-Type', 'X-A'), ('MIME-Version', 'Content-Type')):
+            for ck in sorted(CT_KINDS):
+                for eol in EOLS:
+                    vi += 1
+                    if vi % cfg['of'] != cfg['part']:
+                        continue
+                    kinds = tuple(ck if n == 'Content-Type' else 'plain' for n in names)
+                    block, expected = build_block(names, kinds, eol, 'space')
+                    for body in CT_BODIES:
+                        res.evaluations += 1
+                        res.count('content_type_cases')
+                        res.interesting(('ct', names, ck, eol, body[:10]))
+                        for sig, text, rep in check_strong(names, kinds, eol, 'space', block, expected, body, None):
+                            res.violation(sig, text, rep)
+        res.sample({'family': 'CT', 'content_types': sorted(b2s(v) for v in CT_KINDS.values()), 'bodies': len(CT_BODIES)})
     elif fam == 'R7':
         for text in (u'plain ascii\r\n', u'caf\xe9\r\n', u'\xe9' * 40 + u'\r\nsecond \xe9\r\n'):
             for encname in ('base64', 'quoted-printable', 'none'):
